@@ -585,7 +585,8 @@ def run_e1(prop, tier, seed, modules, rule, bounds, assumptions, need_stubbing=F
     t0 = time.time()
     flt = os.environ.get('VERIF_FILTER')
     if flt:
-        modules = [m for m in modules if flt in m.cfgid]
+        import re as _re
+        modules = [m for m in modules if _re.search(flt, m.cfgid)]
     harness_timeout = harness_timeout or (120 if tier == 'quick' else 600)
     tag = f'{prop.lower()}{crate_tag}'
     d = os.path.join(WORK, f'{tag}_{tier}_{os.getpid()}')
